@@ -117,26 +117,46 @@ def parse_kv(s):
     return out
 
 
-def run_scenarios(scenarios, shards=2, timeout=900, tag="conc"):
-    """-> {scenario name: [(directive, parsed dict)]}, rc, wall"""
-    path = os.path.join(core.BUILD, "%s-%d.conc" % (tag, os.getpid()))
-    with open(path, "w") as f:
-        for sc in scenarios:
-            f.write("\n".join(sc.lines()) + "\n")
+def run_scenarios(scenarios, shards=2, timeout=900, tag="conc", procs=None):
+    """-> {scenario name: [(directive, parsed dict)]}, rc, wall.  Scenarios are independent: they are
+    dealt out to several plsvc processes (one scenario file each) that run side by side."""
+    if not scenarios:
+        return {}, 0, 0.0
+    procs = procs or min(len(scenarios), os.cpu_count() or 4, 16)
+    # deal by descending size so that the big ones do not end up in one file
+    order = sorted(scenarios, key=lambda sc: -len(sc.runs))
+    chunks = [order[i::procs] for i in range(procs)]
     env = dict(os.environ, RUST_BACKTRACE="0", PLSV_SHARDS=str(shards))
     env.pop("VIRTUAL_ENV", None)
     t0 = time.time()
-    try:
-        p = subprocess.run([PLSVC_BIN, "run", path], stdout=subprocess.PIPE, stderr=subprocess.DEVNULL, env=env, timeout=timeout)
-        rc, out = p.returncode, p.stdout.decode("utf-8", "replace")
-    except subprocess.TimeoutExpired as e:
-        rc, out = -99, (e.stdout or b"").decode("utf-8", "replace")
-    os.remove(path)
+    running = []
+    for i, ch in enumerate(chunks):
+        if not ch:
+            continue
+        path = os.path.join(core.BUILD, "%s-%d-%d.conc" % (tag, os.getpid(), i))
+        with open(path, "w") as f:
+            for sc in ch:
+                f.write("\n".join(sc.lines()) + "\n")
+        out = open(path + ".out", "wb")
+        running.append((subprocess.Popen([PLSVC_BIN, "run", path], stdout=out, stderr=subprocess.DEVNULL, env=env), path, out))
+    rc = 0
     res = {}
-    for line in out.splitlines():
-        m = RLINE.match(line)
-        if m:
-            res.setdefault(m.group(1), []).append((m.group(3), parse_kv(m.group(4))))
+    for (p, path, out) in running:
+        left = max(1.0, timeout - (time.time() - t0))
+        try:
+            p.wait(timeout=left)
+            if p.returncode != 0 and rc == 0:
+                rc = p.returncode
+        except subprocess.TimeoutExpired:
+            p.kill(); p.wait()
+            rc = -99
+        out.close()
+        with open(path + ".out", "r", encoding="utf-8", errors="replace") as f:
+            for line in f:
+                m = RLINE.match(line.rstrip("\n"))
+                if m:
+                    res.setdefault(m.group(1), []).append((m.group(3), parse_kv(m.group(4))))
+        os.remove(path); os.remove(path + ".out")
     return res, rc, time.time() - t0
 
 
